@@ -2,6 +2,7 @@ SPECIFICATION CodecSpec
 CONSTANTS
   NP = 1
   MaxCalls = 0
+  NFull = 4
   MaxOps = 100000
   LogOn = FALSE
   U = "mc2"
